@@ -366,3 +366,44 @@ def r_msgnames(A, ctx, scope, rule="R-MSGNAMES"):
                                     f"refusal is no longer explanatory",
                                loc=f"{f.module.relpath}:{call.lineno}")
     ctx.floor(rule, n, scope.get("floor", 1))
+
+
+# --------------------------------------------------------------------------- R-BLOCKBOUND
+def r_blockbound(A, ctx, scope, rule="R-BLOCKBOUND"):
+    ctx.rule(rule, "block curvature constants computed inside solver kernels: an array whose entries are used "
+             "as `1 / L[k]` step sizes and that is filled inside a loop over the indices of a block must be an "
+             "upper bound of the block's largest eigenvalue - a squared spectral norm (`norm(.., ord=2) ** 2`), "
+             "a squared Frobenius norm or a running sum (trace); combining per-column terms with `max` gives the "
+             "largest diagonal entry, a LOWER bound of the largest eigenvalue (equal only for orthogonal "
+             "columns): on duplicated / collinear columns the block step is too long and the iterates diverge")
+    n = 0
+    for mname, mod in sorted(A.prog.modules.items()):
+        if not mname.startswith("skglm.solvers"):
+            continue
+        for f in mod.functions.values():
+            steps = set()
+            for x in ast.walk(f.node):
+                if isinstance(x, ast.BinOp) and isinstance(x.op, ast.Div) and isinstance(x.right, ast.Subscript) \
+                        and isinstance(x.right.value, ast.Name) and isinstance(x.left, ast.Constant):
+                    steps.add(x.right.value.id)
+            for st in ast.walk(f.node):
+                if not (isinstance(st, ast.Assign) and len(st.targets) == 1 and isinstance(st.targets[0], ast.Subscript)
+                        and isinstance(st.targets[0].value, ast.Name) and st.targets[0].value.id in steps):
+                    continue
+                L = st.targets[0].value.id
+                rhs = st.value
+                is_max = isinstance(rhs, ast.Call) and ast.unparse(rhs.func) in ("max", "np.maximum", "np.max") \
+                    and any(isinstance(a, ast.Subscript) and isinstance(a.value, ast.Name) and a.value.id == L
+                            for a in rhs.args)
+                is_max = is_max or (isinstance(rhs, ast.Call) and ast.unparse(rhs.func) in ("np.max", "max")
+                                    and len(rhs.args) == 1 and not isinstance(rhs.args[0], ast.Name))
+                n += 1
+                ctx.ob(rule, f"{f.fq}::{ast.unparse(st)[:60]}", not is_max,
+                       detail="spectral / Frobenius / trace form" if not is_max else "max of per-column terms",
+                       what=f"{f.name}: `{ast.unparse(st)[:90]}` fills the block step constants `{L}` (used as "
+                            f"`1 / {L}[k]`) with the largest per-column term: that is the largest diagonal entry of "
+                            f"the block Hessian, a lower bound of its spectral norm - on duplicated or collinear "
+                            f"columns of one block the step 1 / {L}[k] exceeds 1 / lambda_max by up to the block "
+                            f"size and the solver diverges (NaN) instead of converging",
+                       loc=f"{f.module.relpath}:{st.lineno}")
+    ctx.floor(rule, n, scope.get("floor", 1))
